@@ -1044,7 +1044,7 @@ func (l *lenClasses) classOf(e ast.Expr, depth int) string {
 
 var ruleC3 = &Rule{
 	ID:    "C3",
-	Floor: 10,
+	Floor: 6, // call sites of the row handler; a shared emit helper legitimately merges several decoders' sites
 	Doc: "length coupling at callback sites: at every call of an onEntriesHandler value in writer/utils/unmarshal, the four per-entry arguments (timestamps, messages, values, types) belong to one length class. " +
 		"Classes: literals of equal element count; make/fastFillArray whose length is len(x) of a member; slices whose every length-changing statement (append of one element, truncation, creation) occurs in the same statement lists the same number of times",
 	Run: func(c *Ctx) []Obl {
